@@ -22,6 +22,7 @@ import (
 	"strings"
 	"sync"
 	"testing/synctest"
+	"time"
 
 	"github.com/hashicorp/raft"
 )
@@ -411,6 +412,10 @@ func runLeaderCase(rng *rand.Rand, thorough bool, out *bufio.Writer, st *stats, 
 	}
 	after := 0
 	removed := map[int]bool{}
+	// in a third of the cases virtual time passes: 250 ms per tick, so that heartbeat and commit timers
+	// fire and the lease is checked (no heartbeat is failed in such a case: how long the routine then
+	// backs off is not something the stepped model follows)
+	ticking := rng.Intn(3) == 0
 	for i := 0; i < nev && !w.dead; i++ {
 		d := w.r.VerifDump()
 		if !l.leading() {
@@ -484,6 +489,13 @@ func runLeaderCase(rng *rand.Rand, thorough bool, out *bufio.Writer, st *stats, 
 		sort.Ints(aePeers)
 		sort.Ints(hbPeers)
 		x := rng.Intn(100)
+		if ticking && rng.Intn(4) == 0 {
+			w.c.reset(-1, -1)
+			time.Sleep(250 * time.Millisecond)
+			step("TK", l.obsNow("n"))
+			st.Hist["tick-250ms"]++
+			continue
+		}
 		switch {
 		case x < 30 && len(aePeers) > 0: // a follower answers its parked AppendEntries
 			p := aePeers[rng.Intn(len(aePeers))]
@@ -535,6 +547,9 @@ func runLeaderCase(rng *rand.Rand, thorough bool, out *bufio.Writer, st *stats, 
 			y := rng.Intn(10)
 			if y == 7 && w.r.VerifLeaderDump().VerifyPending > 1 {
 				y = 0 // (which of several refused requests reaches the loop first is the order of a Go map)
+			}
+			if y >= 8 && ticking {
+				y = 0
 			}
 			switch {
 			case y < 7:
